@@ -310,7 +310,7 @@ def register(reg, prog):
         return []
 
     reg.contract(TM + '.dispatch_error', params={'exception': Ref('builtins:Exception'), 'remote': Opt(Ref('Remote'))},
-                 properties=['C02', 'C03', 'C09', 'C14', 'C18'], requires=['tm_wf_sd(self)', 'implies(self.outgoing_requests is not None, self.incoming_requests is not None)'],
+                 properties=['C02', 'C03', 'C07', 'C09', 'C14', 'C18'], requires=['tm_wf_sd(self)', 'implies(self.outgoing_requests is not None, self.incoming_requests is not None)'],
                  only_raises=True, modifies=[],
                  loop_entry={0: ["isinstance_network_error(exception)", 'len(stoppers) == 0'] if False else ['len(stoppers) == 0']},
                  loop_steps={0: [de_step_out], 1: [de_step_in], 2: [de_step_call]},
